@@ -11,6 +11,10 @@ Ideal semantics (the property):
   * objects are built depth-first in specification order; an inline object whose id is already in use
     -- by a finished object OR by an object still under construction (an ancestor) -- is a parse error;
   * a string denotes the finished object with that id; anything else is a parse error;
+  * a *self-registering* class (C13S; the real FlexibleTimeTreeModel) announces itself under its id after
+    its `pre` children and before its remaining children: from then on a string equal to its id denotes
+    that very object (also from deeper descendants), although it is still under construction; its id is
+    in use from the moment construction starts (a descendant defined with it is a parse error);
   * every holder of an id holds the same instance.
 Nothing here imports torchtree.
 """
@@ -36,6 +40,30 @@ class MObj:
 
 # child roles per registered type, in the order the class consumes them
 def _children_of(spec):
+    return _children3(spec)[:2]
+
+
+def _children3(spec):
+    """-> (tag, kids, n_before): n_before = number of kids consumed before the object announces itself
+    in the registry (None: the class never does; it becomes visible only when finished)."""
+    t = spec['type']
+    if t == 'C13S':
+        out = []
+        if 'pre' in spec:
+            out.append(('pre', spec['pre']))
+        nb = len(out)
+        if 'x' in spec:
+            out.append(('x', spec['x']))
+        for c in spec.get('children', []):
+            out.append(('c', c))
+        extra = [k for k in spec if k not in ('id', 'type', 'pre', 'x', 'children', 'ignore')]
+        return ('Se' if extra else 'S'), out, nb
+    if t == 'FlexibleTimeTreeModel':  # taxa first, then it registers itself, then internal_heights
+        return 'F', [('taxa', spec['taxa']), ('h', spec['internal_heights'])], 1
+    return _children2(spec) + (None,)
+
+
+def _children2(spec):
     t = spec['type']
     if t == 'C13N':
         out = []
@@ -52,7 +80,15 @@ def _children_of(spec):
     if t == 'Parameter':
         return 'P', []
     if t == 'TransformedParameter':
-        return 'T', [('x', spec['x'])]
+        out = []
+        v = spec.get('parameters', {}).get('tree_model')  # transform arguments are consumed before x
+        if isinstance(v, (str, dict)):
+            out.append(('tree_model', v))
+        return 'T', out + [('x', spec['x'])]
+    if t == 'Taxa':
+        return 'X', [('t', c) for c in spec['taxa']]
+    if t == 'Taxon':
+        return 'Y', []
     if t == 'Distribution':
         out = [('x', spec['x'])]
         for name in ('rate', 'loc', 'scale'):
@@ -129,8 +165,8 @@ def _all_ids(o, acc):
 
 ALLOWED = {('T', 'x'): 'PT', ('D', 'x'): 'PT', ('D', 'rate'): 'PT', ('D', 'loc'): 'PT', ('D', 'scale'): 'PT',
            ('J', 'd'): 'DJ'}
-TAG = {'C13N': 'N', 'C13Picky': 'K', 'Parameter': 'P', 'TransformedParameter': 'T', 'Distribution': 'D',
-       'JointDistributionModel': 'J'}
+TAG = {'C13N': 'N', 'C13S': 'S', 'C13Picky': 'K', 'Parameter': 'P', 'TransformedParameter': 'T', 'Distribution': 'D',
+       'JointDistributionModel': 'J', 'FlexibleTimeTreeModel': 'F', 'Taxa': 'X', 'Taxon': 'Y'}
 
 
 def ill_typed(data):
@@ -191,6 +227,7 @@ def load(data):
     where = {}  # id -> (parent id or None, role)
     order = []
     open_ids = []
+    announced = {}  # id -> MObj still under construction that has already registered itself
 
     def build(spec, parent, role):
         if isinstance(spec, str):
@@ -198,6 +235,8 @@ def load(data):
                 raise Reject('range-syntax')
             if spec in done:
                 return done[spec]
+            if spec in announced:
+                return announced[spec]
             if spec in open_ids:
                 raise Reject('dangling-ref:self-or-ancestor')
             if spec in every:
@@ -209,7 +248,8 @@ def load(data):
             raise Reject('missing-id')
         i = spec['id']
         if i in open_ids:
-            raise Reject('duplicate-id:child-equals-ancestor')
+            raise Reject('duplicate-id:child-equals-self-registered-ancestor' if i in announced
+                         else 'duplicate-id:child-equals-ancestor')
         if i in done:
             p0, r0 = where[i]
             if p0 is None and parent is None:
@@ -220,10 +260,13 @@ def load(data):
         if 'type' not in spec:
             raise Reject('missing-type')
         open_ids.append(i)
-        tag, kids = _children_of(spec)
+        tag, kids, n_before = _children3(spec)
         obj = MObj(tag, i)
-        for r, c in kids:
+        for j, (r, c) in enumerate(kids):
+            if n_before is not None and j == n_before:
+                announced[i] = obj
             obj.kids.append((r, build(c, i, r)))
+        announced.pop(i, None)
         open_ids.pop()
         done[i] = obj
         where[i] = (parent, role)
